@@ -39,3 +39,6 @@ Definition FibonacciBackoff_multiplier_default : (Z * Z) := (1, 1)%Z.
 Definition FibonacciBackoff_max_value_default : (Z * Z) := (1, 1)%Z.
 Definition http_default_status : Z := (200)%Z.
 Definition jsonrpc_mediatype : string := "application/json".
+Definition response_always_truthy : bool := true.
+Definition unset_is_falsy : bool := true.
+Definition retry_twins_textually_equal : bool := true.
